@@ -38,13 +38,13 @@ type RunResult struct {
 
 // RunOpts controls one execution.
 type RunOpts struct {
-	KeepLog bool
-	StopOn  string // property whose first violation ends the run ("*": any)
-	RealDir string // pass-through mode: real directory
-	DeepReads bool // run the C03/C11 read oracles after every op (sequential scenarios)
+	KeepLog     bool
+	StopOn      string // property whose first violation ends the run ("*": any)
+	RealDir     string // pass-through mode: real directory
+	DeepReads   bool   // run the C03/C11 read oracles after every op (sequential scenarios)
 	DeepRefsFor bool
-	Porcupine bool // black-box linearizability cross-check of the call history (C04)
-	Hook    func(w *World) // called after the world is built
+	Porcupine   bool           // black-box linearizability cross-check of the call history (C04)
+	Hook        func(w *World) // called after the world is built
 }
 
 const finalHandle = 900
